@@ -114,6 +114,16 @@ W5 = '2021 Schedule 8812 instructions, Line 5 Worksheet'
 S21 = '2021 Schedule 8812'
 import math as _m
 
+
+def _ws7(c):
+    # a definition that never reads line 7 leaves it out of the return: line 7 is then taken from its own instruction
+    # (the smaller of line 5 or the published amount of line 6) instead of skipping the rule for line 11
+    try:
+        return c.v('5_ws_7')
+    except Skip:
+        return min(c.v('5_ws_5'), float(c.amount('ctc_2021_line5wkst_line6')))
+
+
 RULES += [
     # ---------------- more Form 1040 carries
     ('1040', '13', ALL, lambda c: c.x('8995.15'), I1040 + ' 13 = Form 8995 line 15'),
@@ -137,7 +147,7 @@ RULES += [
     ('1040_s8812', '5_ws_3', (2021,), lambda c: c.v('5_ws_1') + c.v('5_ws_2'), W5), ('1040_s8812', '5_ws_4', (2021,), lambda c: c.v('4a') * 2000.0, W5),
     ('1040_s8812', '5_ws_5', (2021,), lambda c: c.v('5_ws_3') - c.v('5_ws_4'), W5), ('1040_s8812', '5_ws_7', (2021,), lambda c: min(c.v('5_ws_5'), c.v('5_ws_6')), W5),
     ('1040_s8812', '5_ws_9', (2021,), lambda c: (_m.ceil(round(c.x('1040_s8812.3') - c.v('5_ws_8'), 6) / 1000.0) * 1000.0) if c.x('1040_s8812.3') - c.v('5_ws_8') > 0.001 else 0.0, W5),
-    ('1040_s8812', '5_ws_10', (2021,), lambda c: c.v('5_ws_9') * 0.05, W5), ('1040_s8812', '5_ws_11', (2021,), lambda c: min(c.v('5_ws_7'), c.v('5_ws_10')), W5),
+    ('1040_s8812', '5_ws_10', (2021,), lambda c: c.v('5_ws_9') * 0.05, W5), ('1040_s8812', '5_ws_11', (2021,), lambda c: min(_ws7(c), c.v('5_ws_10')), W5),
     ('1040_s8812', '5_ws_12', (2021,), lambda c: c.v('5_ws_3') - c.v('5_ws_11'), W5),
     ('1040_s8812', '5', (2021,), lambda c: c.v('5_ws_12') if c.v('4a') > 0 else 0.0, S21 + ' line 5'),
     ('1040_s8812', '14a', (2021,), lambda c: min(c.v('7'), c.v('12')), S21 + ' line 14a'), ('1040_s8812', '14b', (2021,), lambda c: c.v('12') - c.v('14a'), S21 + ' line 14b'),
